@@ -124,6 +124,7 @@ func execC08A(e *Env, pp any) {
 		return
 	}
 	e.Note("nontrivial")
+	e.Log(fmt.Sprintf("deadline.%v.%v.%v", p.Timeout, p.PreDelay, p.Transit), "", 0, "")
 	t2 := r.HEntryTime
 	if !hasD {
 		e.Note("deadline.none")
@@ -312,6 +313,7 @@ func execC08B(e *Env, pp any) {
 	}
 	e.Note("nontrivial")
 	want, valid, overlong := refTimeout(p.Value)
+	e.Log("timeout."+p.Value, "", 0, "")
 	switch {
 	case valid:
 		e.Note("grammar.valid")
